@@ -12,6 +12,9 @@ def sizesLine (line : String) : String :=
     if sizes.all appendAcceptsSize then
       if freshBatchSeals (nat! segSize) sizes then "ok readable sealed" else "ok readable"
     else "err"
+  | "multi" :: _segSize :: _pre :: ss =>
+    -- a batch far below the segment size limit: accepted iff every entry is, never sealing
+    if (ss.map nat!).all appendAcceptsSize then "ok readable" else "err"
   | _ => "bad-op"
 
 end Driver
